@@ -398,11 +398,12 @@ def tempPrefix (tmpdir dir pat : Str) : Str :=
   let d := if dir = [] then tmpdir else dir
   if d ≠ [] ∧ d.getLast? = some sep then d ++ (splitStar pat).1 else joinPath d (splitStar pat).1
 
-/-- `strconv.Itoa` of a non-negative number -/
-def decimal (n : Nat) : Str :=
-  if h : n < 10 then [Char.ofNat (48 + n)] else decimal (n / 10) ++ [Char.ofNat (48 + n % 10)]
-termination_by n
-decreasing_by omega
+/-- `strconv.Itoa` of a non-negative number (`fuel` only makes the recursion structural) -/
+def decimalAux : Nat → Nat → Str
+  | 0, n => [Char.ofNat (48 + n % 10)]
+  | fuel + 1, n => if n < 10 then [Char.ofNat (48 + n)] else decimalAux fuel (n / 10) ++ [Char.ofNat (48 + n % 10)]
+
+def decimal (n : Nat) : Str := decimalAux n n
 
 /-- the path `CreateTemp` tries when its random source yields `r` -/
 def tempName (tmpdir dir pat : Str) (r : Nat) : Str :=
